@@ -154,8 +154,12 @@ class Repository(object):
             raise CheckoutFailedException(name) from err
 
     def push(self, name):
+        # Several branches are published together or not at all: when the
+        # server refuses one of them (branch protection, concurrent update)
+        # a half-published set of integration or queue branches would block
+        # the pull request (history mismatch, incoherent queues).
         try:
-            self.cmd('git push --set-upstream origin ' + name)
+            self.cmd('git push --atomic --set-upstream origin ' + name)
         except CommandError as err:
             raise PushFailedException(name) from err
 
